@@ -179,6 +179,7 @@ CONTRACTS = {
         'no_error': True,
     },
     'mj_stateSize': {
+        'drop_dead_ptr_locals': True,   # per-iteration pointer temporaries (ptr, dst_ptr, src_ptr) are dead at the joins
         'requires': REQ,
         'assigns': [],
         'ensures': {'sum_of_selected_sizes': 'result == ' + size('sig')},
@@ -186,6 +187,7 @@ CONTRACTS = {
         'loops': {0: cut(size_inv)},
     },
     'mj_getState': {
+        'drop_dead_ptr_locals': True,   # per-iteration pointer temporaries (ptr, dst_ptr, src_ptr) are dead at the joins
         'requires': REQ,
         'params': {'d': D_SPEC, 'state': {'len': 'ite(%s, %s, 0)' % (SIG_OK, size('sig'))}},
         'assigns': ['state[*]'],
@@ -194,6 +196,7 @@ CONTRACTS = {
         'loops': {0: cut(get_inv), 1: [INNER_GET, INNER_GET2]},
     },
     'mj_setState': {
+        'drop_dead_ptr_locals': True,   # per-iteration pointer temporaries (ptr, dst_ptr, src_ptr) are dead at the joins
         'requires': REQ,
         'params': {'d': D_SPEC, 'state': {'len': 'ite(%s, %s, 0)' % (SIG_OK, size('sig'))}},
         'assigns': SET_ASSIGNS,
@@ -202,6 +205,7 @@ CONTRACTS = {
         'loops': {0: cut(set_inv), 1: [INNER_SET, INNER_SET2]},
     },
     'mj_copyState': {
+        'drop_dead_ptr_locals': True,   # per-iteration pointer temporaries (ptr, dst_ptr, src_ptr) are dead at the joins
         'requires': REQ,
         'params': {'src': D_SPEC, 'dst': D_SPEC},
         'assigns': ['dst.time'] + ['dst.%s[*]' % TABLE[b][1] for b in range(1, NSTATE)],
@@ -216,6 +220,7 @@ CONTRACTS = {
         'loops': {0: cut(copy_inv), 1: INNER_COPY},
     },
     'mj_extractState': {
+        'drop_dead_ptr_locals': True,   # per-iteration pointer temporaries (ptr, dst_ptr, src_ptr) are dead at the joins
         'requires': REQ,
         'params': {'src': {'len': 'ite(0 <= srcsig and srcsig < 2**14, %s, 0)' % size('srcsig')},
                    'dst': {'len': 'ite(0 <= srcsig and srcsig < 2**14 and 0 <= dstsig and dstsig < 2**14, %s, 0)' % size('dstsig')}},
